@@ -13,24 +13,31 @@ import (
 
 // Item is one thing done to the host in a session: a control command (bytes) or an HTTP request.
 type Item struct {
-	Kind   string `json:"kind"`             // "cmd" | "http"
-	Msg    []byte `json:"msg,omitempty"`    // command bytes (base64 in JSON; see MsgText for a readable copy)
-	Text   string `json:"text,omitempty"`   // %q of Msg, for people reading a replay file
-	Family string `json:"family"`           // which part of the grammar produced it (stable, used in violation keys)
-	Method string `json:"method,omitempty"` // HTTP
-	Path   string `json:"path,omitempty"`
-	Body   []byte `json:"body,omitempty"`
-	Chunked bool  `json:"chunked,omitempty"` // send the body with Transfer-Encoding: chunked (no Content-Length)
-	CType  string `json:"ctype,omitempty"`   // Content-Type header ("" = none)
+	Kind    string `json:"kind"`             // "cmd" | "http"
+	Msg     []byte `json:"msg,omitempty"`    // command bytes (base64 in JSON; see MsgText for a readable copy)
+	Text    string `json:"text,omitempty"`   // %q of Msg, for people reading a replay file
+	Family  string `json:"family"`           // which part of the grammar produced it (stable, used in violation keys)
+	Method  string `json:"method,omitempty"` // HTTP
+	Path    string `json:"path,omitempty"`
+	Body    []byte `json:"body,omitempty"`
+	Chunked bool   `json:"chunked,omitempty"` // send the body with Transfer-Encoding: chunked (no Content-Length)
+	CType   string `json:"ctype,omitempty"`   // Content-Type header ("" = none)
+	// pipelined sessions: which controller sends it, and how its reply is recognised on the topic: "tag"
+	// (the reply echoes Tag), "error" (Unrecognised Command), "noapi" (Cannot delete apiRule), "health", "zero" (listing of a destination nobody ever adds)
+	Ctl   int    `json:"ctl,omitempty"`
+	Class string `json:"class,omitempty"`
+	Tag   string `json:"tag,omitempty"`
 }
 
 // Session is one case: a fresh host, how commands reach it, the items.
 type Session struct {
-	API   string `json:"api"`  // Opts.API ("" = no control connection configured)
-	Mode  string `json:"mode"` // "topic" (in-process client of the api topic) | "ws" (websocket client of /ws/api) | "direct" (handleAdminMessage)
-	Items []Item `json:"items"`
-	TmpDir string `json:"tmp_dir,omitempty"` // created before and removed after the session: where rules with a "file" record to
-	Obs   []Obs  `json:"obs,omitempty"`
+	API         string `json:"api"`  // Opts.API ("" = no control connection configured)
+	Mode        string `json:"mode"` // "topic" (in-process client of the api topic) | "ws" (websocket client of /ws/api) | "direct" (handleAdminMessage)
+	Items       []Item `json:"items"`
+	GapUs       int    `json:"gap_us,omitempty"`      // mode "pipe": pause after every third command (0 = none): lets more commands reach the handler
+	Controllers int    `json:"controllers,omitempty"` // mode "pipe": websocket controllers on /ws/api sending their commands without waiting
+	TmpDir      string `json:"tmp_dir,omitempty"`     // created before and removed after the session: where rules with a "file" record to
+	Obs         []Obs  `json:"obs,omitempty"`
 }
 
 var (
@@ -429,6 +436,57 @@ func genFileScenario(r *lib.Rng, dir string, teardown int) []Item {
 		cmd(`{"verb":"list","what":"destination","which":"all"}`, "list/destination/which-all"),
 		cmd(`{"verb":"healthcheck"}`, "healthcheck/"))
 	return items
+}
+
+// genPipeSession: 1-3 controllers on /ws/api, each sending a burst of commands back to back without waiting
+// for replies.  Replies are recognisable on the topic: commands that change or name something carry a tag
+// that the reply echoes; the others have a reply that depends on nothing (error, healthcheck, the listing of an
+// id nobody adds).
+func genPipeSession(r *lib.Rng, controllers, perCtl, gapUs int) Session {
+	s := Session{Mode: "pipe", Controllers: controllers, GapUs: gapUs}
+	if r.Chance(3, 4) {
+		s.API = "ws://127.0.0.1:9/ctl/api"
+	}
+	n := 0
+	for c := 0; c < controllers; c++ {
+		// each controller introduces itself: its first command is unlike anybody else's
+		hello := fmt.Sprintf("hello-%d", c)
+		hmsg := `{"verb":"delete","what":"stream","which":"` + hello + `"}`
+		s.Items = append(s.Items, Item{Kind: "cmd", Msg: []byte(hmsg), Text: fmt.Sprintf("%q", hmsg), Family: "pipe/delete/stream", Ctl: c, Class: "tag", Tag: hello})
+		for i := 0; i < perCtl; i++ {
+			n++
+			tag := fmt.Sprintf("p-%d-%d", c, n)
+			var msg, class, fam string
+			switch x := r.Intn(20); {
+			case x < 5:
+				msg, class, fam = `{"verb":"healthcheck"}`, "health", "healthcheck/"
+			case x < 8:
+				msg, class, fam = `{"verb":"delete","what":"stream","which":"`+tag+`"}`, "tag", "delete/stream"
+			case x < 11:
+				msg, class, fam = `{"verb":"delete","what":"destination","which":"`+tag+`"}`, "tag", "delete/destination"
+			case x < 12:
+				msg, class, fam = `{"verb":"add","what":"stream","rule":{"stream":"`+tag+`","feeds":["video0"]}}`, "tag", "add/stream"
+			case x < 13:
+				msg, class, fam = `{"verb":"add","what":"destination","rule":{"id":"`+tag+`","stream":"video0","destination":"ws://127.0.0.1:9/in/p"}}`, "tag", "add/destination"
+			case x < 15:
+				msg, class, fam = `{"verb":"list","what":"destination","which":"never-added"}`, "zero", "list/destination"
+			case x < 16:
+				msg, class, fam = `{"verb":"add","what":"stream"}`, "error", "add/stream/rule-absent"
+			case x < 17:
+				msg, class, fam = `{"verb":"delete","what":"destination","which":"apiRule"}`, "noapi", "delete/destination/which-apiRule"
+			case x < 18:
+				b, f := genMalformed(r)
+				if d := decodeCmd(b); len(b) > 2000 || (d.OK && (d.Cmd.What == "destination" || d.Cmd.What == "stream" || d.Cmd.Verb == "healthcheck")) {
+					b, f = []byte("Not even JSON"), "malformed/text" // only bytes whose answer is the plain refusal
+				}
+				msg, class, fam = string(b), "error", f
+			default:
+				msg, class, fam = `{"verb":"frobnicate","what":"`+tag+`"}`, "error", "unknown-verb"
+			}
+			s.Items = append(s.Items, Item{Kind: "cmd", Msg: []byte(msg), Text: fmt.Sprintf("%q", msg), Family: "pipe/" + fam, Ctl: c, Class: class, Tag: tag})
+		}
+	}
+	return s
 }
 
 func genSession(r *lib.Rng, nCmd, nHTTP int, mode string) Session {
